@@ -72,9 +72,24 @@ func mapRanges(fn *ssa.Function) []mapRange {
 			return
 		}
 		mr.Head = mr.Next.Block()
-		for _, b := range fn.Blocks {
-			if b == mr.Head || (blockDominates(mr.Head, b) && reaches(b, mr.Head)) {
-				mr.Body[b] = true
+		// the natural loop of the head's back edges: what reaches a back edge's source without passing the
+		// head (a block behind the loop's exit that reaches the head again through an enclosing loop is not in it)
+		mr.Body[mr.Head] = true
+		var work []*ssa.BasicBlock
+		for _, pb := range mr.Head.Preds {
+			if blockDominates(mr.Head, pb) && !mr.Body[pb] {
+				mr.Body[pb] = true
+				work = append(work, pb)
+			}
+		}
+		for len(work) > 0 {
+			b := work[len(work)-1]
+			work = work[:len(work)-1]
+			for _, pb := range b.Preds {
+				if !mr.Body[pb] {
+					mr.Body[pb] = true
+					work = append(work, pb)
+				}
 			}
 		}
 		out = append(out, mr)
